@@ -8,8 +8,8 @@
 //!   1 constructor outcome; 40/41/1042 the original graph; 20/1021 the tokens of the written
 //!   document (header+nodes+footer in order / one row per edge element); 70 all tokens of the
 //!   document as quick-xml hands them to the reader (this is the model's INPUT);
-//!   4 reader outcome; 5/6/1007 the graph read; 8, 30 constants 1 (validations evaluated by the
-//!   model); 50 file variant: [same bytes as the string variant, file read-back equals string read-back]
+//!   4 reader outcome; 5/6/1007 the graph read; 8, 30, 31 constants 1 (validations evaluated by the
+//!   model: content = spec, model round trip returns the graph, hypotheses of the round-trip theorem hold); 50 file variant: [same bytes as the string variant, file read-back equals string read-back]
 use crate::hist::{parse_specs, Toks};
 use crate::obs::*;
 use graphrs::{readwrite, Edge, Graph, GraphSpecs, Node};
@@ -320,6 +320,7 @@ pub fn run_case(lines: &[Vec<String>], o: &mut Out) {
             let back = read_and_print(o, &doc, &specs);
             o.obs(8, &[vec![1]], &[]);
             o.obs(30, &[vec![1]], &[]);
+            o.obs(31, &[vec![1]], &[]);
             // file variant
             let n = FILE_CTR.fetch_add(1, std::sync::atomic::Ordering::SeqCst);
             let path = work_dir().join(format!("gvtmp_{}_{}.graphml", std::process::id(), n));
